@@ -7,7 +7,7 @@ From Coq Require Import String.
 From Coq Require Import ZArith List QArith Qcanon.
 From Batchie Require Import Lib.Sexp Lib.Num Generated.Consts Model.Gibbs Model.GibbsSpec Model.Mvn
   Proofs.C08Sums Proofs.C08Gauss Proofs.C08Cache Proofs.C08Misc Proofs.C08Mgp Proofs.C08Mvn Proofs.C08Final
-  Proofs.C08HorseshoeAlg Proofs.C08Horseshoe.
+  Proofs.C08HorseshoeAlg Proofs.C08Horseshoe Generated.SrcGibbs Proofs.C08Source.
 Import ListNotations.
 Open Scope Qc_scope.
 
@@ -552,3 +552,68 @@ Example C08_example_horseshoe_step :
   | _ => false
   end = true.
 Proof. vm_compute. reflexivity. Qed.
+
+(* ------------------------------------------------------------------ source-translation links
+   Generated/SrcGibbs.v holds the methods of LegacySparseDrugComboImpl re-translated from /repo on every run
+   (harness/py2gal.py, configurations C08_* of harness/src_functions.py) as programs in the free monad [gprog] over the
+   model's draws: every np.random.normal / np.random.gamma call is a node carrying the call's arguments and the method
+   goes on with the drawn value.  [to_prog] reads such a program as a model program; [prog_eq] is equality of programs up
+   to the extensionality of their continuations (same draw arguments at every node, equal continuations for every drawn
+   value; no axiom).  The hypotheses are shape facts that hold in every reachable state (the parameter arrays keep the
+   sizes __init__ gives them; Mu has one entry per observation after _reconstruct_Mu, with which every sweep starts). *)
+
+(* programs equal in this sense answer every stream of drawn values alike *)
+Theorem C08_model_is_source_observable : forall p q, prog_eq p q -> forall vals, run_prog p vals = run_prog q vals.
+Proof. exact prog_eq_run. Qed.
+Print Assumptions C08_model_is_source_observable.
+
+(* mcmc_step: whatever the block methods do ([run]), the translated method calls each of them once, in the model's order,
+   threading the state ... *)
+Theorem C08_model_is_source_mcmc_step_order : forall (run : blk -> st -> gprog st) n s,
+  prog_eq (to_prog (src_mcmc_step run n s)) (run_blocks_with (fun b s' => to_prog (run b s')) step_order s).
+Proof. exact src_mcmc_step_order. Qed.
+Print Assumptions C08_model_is_source_mcmc_step_order.
+
+(* ... hence with block methods that behave as the model's step functions it is the model's sweep *)
+Theorem C08_model_is_source_mcmc_step : forall g d orc (run : blk -> st -> gprog st) n s,
+  (forall b s', prog_eq (to_prog (run b s')) (step_prog g d orc b s')) ->
+  prog_eq (to_prog (src_mcmc_step run n s)) (mcmc_step g d orc s).
+Proof. exact src_mcmc_step_is_model. Qed.
+Print Assumptions C08_model_is_source_mcmc_step.
+
+Theorem C08_model_is_source_n_obs : forall d, src_n_obs d = GRet (Z.of_nat (nobs d)).
+Proof. exact src_n_obs_is_model. Qed.
+Print Assumptions C08_model_is_source_n_obs.
+
+(* get(attr, ix) on an array of numbers / of rows is the model's get_v / get_r at every index *)
+Theorem C08_model_is_source_get : forall (v : list Qc) (M : list (list Qc)) ix,
+  src_get Qc 0 v ix = GRet (map (get_v v) ix) /\ src_get (list Qc) [] M ix = GRet (map (get_r M) ix).
+Proof. exact (fun v M ix => conj (src_get_numbers v ix) (src_get_rows M ix)). Qed.
+Print Assumptions C08_model_is_source_get.
+
+(* _alpha_step with the default option fake_intercept = True (the other branch is translated too, not modelled) *)
+Theorem C08_model_is_source_alpha_step : forall g d s, src_alpha_step g d true s = GRet (alpha_step d s).
+Proof. exact src_alpha_step_is_model. Qed.
+Print Assumptions C08_model_is_source_alpha_step.
+
+Theorem C08_model_is_source_prec_obs_step : forall g d orc s, length (Mu s) = nobs d ->
+  prog_eq (to_prog (src_prec_obs_step g d orc s)) (step_prog g d orc BPrecObs s).
+Proof. exact src_prec_obs_step_is_model. Qed.
+Print Assumptions C08_model_is_source_prec_obs_step.
+
+Theorem C08_model_is_source_prec_W0_step : forall g d orc s,
+  prog_eq (to_prog (src_prec_W0_step g d orc s)) (step_prog g d orc BPrecW0 s).
+Proof. exact src_prec_W0_step_is_model. Qed.
+Print Assumptions C08_model_is_source_prec_W0_step.
+
+(* the scalar Gaussian blocks: the loop over samples / treatments, the index lists, the residual, the prior-only branch,
+   the draw's mean and variance, the stored value and the incremental cache update *)
+Theorem C08_model_is_source_W0_step : forall g d orc s, length (W0 s) = c_ncl g ->
+  prog_eq (to_prog (src_W0_step g d s)) (step_prog g d orc BW0 s).
+Proof. exact src_W0_step_is_model. Qed.
+Print Assumptions C08_model_is_source_W0_step.
+
+Theorem C08_model_is_source_V0_step : forall g d orc s, length (V0 s) = c_ndd g ->
+  prog_eq (to_prog (src_V0_step g d s)) (step_prog g d orc BV0 s).
+Proof. exact src_V0_step_is_model. Qed.
+Print Assumptions C08_model_is_source_V0_step.
